@@ -76,7 +76,13 @@ func parseGraph(printed []string) (*graph, error) {
 // edge: follow an uncovered edge when the current node has one, otherwise
 // walk the shortest way to the nearest node that has one.
 func (g *graph) tours(rnd *rand.Rand, maxLen int) ([][]*Edge, error) {
-	for _, es := range g.out {
+	var ks []string
+	for k := range g.out {
+		ks = append(ks, k)
+	}
+	sort.Strings(ks)
+	for _, k := range ks {
+		es := g.out[k]
 		rnd.Shuffle(len(es), func(i, j int) { es[i], es[j] = es[j], es[i] })
 	}
 	left := len(g.edges)
